@@ -62,7 +62,7 @@ var primable = map[string]bool{
 
 func (e *env) enumerate() []caseDef {
 	var out []caseDef
-	for _, ts := range allTypes {
+	for _, ts := range e.types {
 		sample := ts.mk(e, params{v: e.cl.Vals[0], slot: 1000, salt: 0})
 		out = append(out, caseDef{"peer", ts, "control", -1}, caseDef{"peer", ts, "control-last-slot-in-gater-window", -1})
 		for _, a := range peerAlts {
@@ -322,7 +322,7 @@ func (e *env) runPair(cd caseDef) {
 // later cases are being handled.
 func (e *env) injectNoise() {
 	cl := e.cl
-	ts := allTypes[verifrt.Intn("w", len(allTypes))]
+	ts := e.types[verifrt.Intn("w", len(e.types))]
 	v := cl.Vals[verifrt.Intn("w", len(cl.Vals))]
 	idx := 1 + verifrt.Intn("w", cl.Cfg.N)
 	e.salt++
